@@ -93,7 +93,7 @@ struct Explorer {
     }
     if (on(EV_FORGE) && b.dev < maxdev && b.n[EV_FORGE] < f.max_forge) {
       for (auto &t : w.txs) {
-        VSock *s = w.sock(t.fd);
+        VSock *s = w.sock_of(t);
         if (!t.q.ok || t.q.q.empty()) continue;
         for (int m : f.forges) {
           if (m == FG_OTHERSOCK) {
